@@ -14,8 +14,8 @@ func vpH_C05_stream() {
 	sc := newCrypter(secret, sender, false)
 	type sent struct {
 		typ, seq, flags uint8
-		sid            uint32
-		body           []byte
+		sid             uint32
+		body            []byte
 	}
 	var pk []sent
 	for i := 0; i < k; i++ {
